@@ -225,6 +225,11 @@ class LogarithmicInterrupts(ConstantInterrupts):
         b = self.dt_initial / (self.factor - 1)
         return a + b * self.factor**iteration
 
+    def initialize(self, t: float) -> float:
+        # restart the sequence of durations (the object might have been used before)
+        self.dt = self.dt_initial / self.factor
+        return super().initialize(t)
+
     def next(self, t: float) -> float:
         self.dt *= self.factor
         return super().next(t)
@@ -271,6 +276,7 @@ class GeometricInterrupts(InterruptsBase):
         return self.scale * self.factor**iteration
 
     def initialize(self, t: float) -> float:
+        self._t_next = None  # restart the sequence (the object might have been used before)
         return self.next(t)
 
     def next(self, t: float) -> float:
